@@ -114,8 +114,11 @@ class Part:
     meta-model property name; ``{"__class__": name, ...}`` = nested instance) + the classes its world needs."""
 
     def __init__(self, family: str, name: str, model: Any, cases: List[Tuple[str, Dict[str, Any], Tuple[str, ...]]],
-                 direct: List[Tuple[str, List[Any]]]) -> None:
+                 direct: List[Tuple[str, List[Any]]], halves: Optional[Any] = None) -> None:
         self.family, self.name, self.model, self.cases, self.direct = family, name, model, cases, direct
+        #: ``halves() -> [Part, Part]`` (or None): the same inputs in two smaller models, for a changed front end that
+        #: rejects the packed model because of ONE of its types
+        self.halves = halves
 
 
 def build_value(sdk: Any, v: Any) -> Any:
@@ -410,7 +413,11 @@ def _cpmi_model(shapes: Sequence[Tuple[str, str, List[Tuple[str, List[str], List
     order.extend(c.name for c in classes)
     m = mm.MM(classes=classes, constrained_primitives=cps, verification_functions=_cpmi_fns(), version="V1",
               xml_namespace="urn:aasv:cpmi:" + tag, order=order)
-    return Part("cpmi", tag, m, cases, direct)
+    halves = None
+    if len(shapes) > 1:
+        h = len(shapes) // 2
+        halves = lambda: [_cpmi_model(shapes[:h], tag, order_shift), _cpmi_model(shapes[h:], tag, order_shift + h)]  # noqa: E731
+    return Part("cpmi", tag, m, cases, direct, halves)
 
 
 def part_cpmi() -> Part:
